@@ -114,6 +114,7 @@ static void worker(const Opts& o, int w, const std::string& aggpath, double dead
 	Agg a;
 	for (uint64_t idx = uint64_t(w); idx < o.max_runs && now_s() < deadline; idx += uint64_t(o.workers)) {
 		uint64_t seed = mix64(o.seed, idx);
+		g_run_index = idx;
 		RunResult r = run_in_child(nullptr, o.profile, o.tier, seed, o.wall);
 		agg_add(a, r);
 		Plan pl; bool have_plan = plan_from_text(r.plan_text, pl);
@@ -349,7 +350,7 @@ int main(int argc, char** argv) {
 		else if (a == "--secs") o.secs = atof(nxt().c_str()); else if (a == "--workers") o.workers = atoi(nxt().c_str()); else if (a == "--max-runs") o.max_runs = strtoull(nxt().c_str(), nullptr, 10);
 		else if (a == "--out") o.out = nxt(); else if (a == "--known") o.known = nxt(); else if (a == "--replay-dir") o.replay_dir = nxt(); else if (a == "--wall") o.wall = atoi(nxt().c_str());
 		else if (a == "--noise-every") o.noise_every = atoi(nxt().c_str()); else if (a == "--print-plan") o.print_plan = true; else if (a == "--no-shrink") o.no_shrink = true;
-		else if (a == "--run-seed") o.one_seed = strtoull(nxt().c_str(), nullptr, 10); else if (a == "--quiet") o.print_plan = false, o.no_shrink = true;
+		else if (a == "--run-seed") o.one_seed = strtoull(nxt().c_str(), nullptr, 10); else if (a == "--run-index") g_run_index = strtoull(nxt().c_str(), nullptr, 10); else if (a == "--quiet") o.print_plan = false, o.no_shrink = true;
 		else if (a[0] != '-') o.file = a;
 	}
 	simheap::map_arena();
